@@ -333,7 +333,13 @@ fn check_c06(m: &Model, st: &mut Stats) -> Vec<Mismatch> {
         }
     }
     roots.extend(tagged);
-    roots.extend(downstream);
+    // A disagreement that is not reproduced over the engine's own input values can only come
+    // from an upstream difference below the numeric tolerance that a later text conversion
+    // makes visible: counted, never a verdict.
+    if roots.is_empty() && !downstream.is_empty() {
+        st.inconclusive += 1;
+        st.count("downstream_only_disagreements_below_tolerance");
+    }
     roots
 }
 
